@@ -1,5 +1,6 @@
 import Proofs.AdjointNN
 import Proofs.Subgradient
+import Props.C02Formulas
 import Proofs.VJPBce
 import Proofs.VJPSoftmax
 import Proofs.VJPBatchNorm
